@@ -4,9 +4,12 @@
    translation; tablib import/export), Io/Sanitize.v (XLSXSheetReader._sanitize, Dataset.dict
    getter/setter, the three workbook readers).  Facts: Io/IoFacts.v, Io/SanitizeFacts.v,
    Io/JsonTableFacts.v, Io/AgreeFacts.v.  openpyxl and json are not modelled: they are the
-   universally quantified functions with one premise each in part 4. *)
+   universally quantified functions with one premise each in part 4.
+   How a tree treats rows without content and sheets without rows is PROBED (Io/TreeFlags.v:
+   tree_flags, from Gen/Tables.v); the facts are proved for arbitrary flags [fl] and the statements
+   over the property's whole domain are DECIDED by the flags (part 5). *)
 From Coq Require Import List NArith Bool.
-From RPFT Require Import Base.Sexp Base.PyStr Base.Result Gen.Tables Io.Csv Io.Sanitize
+From RPFT Require Import Base.Sexp Base.PyStr Base.Result Gen.Tables Io.Csv Io.Sanitize Io.TreeFlags
   Io.IoFacts Io.SanitizeFacts Io.JsonTableFacts Io.AgreeFacts.
 Import ListNotations.
 Local Open Scope N_scope.
@@ -80,6 +83,14 @@ Theorem C14_csv_sheet : forall translated (t : table str str),
 Proof. exact csv_sheet. Qed.
 Print Assumptions C14_csv_sheet.
 
+(* ... and CSVSheetReader on it: the same table, without its rows of empty cells on a tree whose
+   reader omits them *)
+Theorem C14_csv_reader_sheet : forall fl translated (t : table str str),
+  hdr t <> [] -> rect t -> cells_fit t ->
+  read_csv fl translated (export_csv t) = Ok (drop_if (rf_csv_drop fl) (if translated then tr_table t else t)).
+Proof. exact csv_reader_sheet. Qed.
+Print Assumptions C14_csv_reader_sheet.
+
 (* ------------------------------------------------------------------ 2. _sanitize *)
 
 (* strip_none is THE split of a header row into (a part that is empty or ends with a real
@@ -144,7 +155,8 @@ Example C14_json_table_roundtrip_nonvacuous :
 Proof. exact json_table_roundtrip_nonvacuous. Qed.
 Print Assumptions C14_json_table_roundtrip_nonvacuous.
 
-(* rows = []: the headers are lost (known finding "sheet without rows") *)
+(* rows = []: Dataset.dict cannot carry the headers (the cause of finding "sheet without rows": on the
+   repaired tree `convert` no longer relies on Dataset.dict for such a sheet, see part 5) *)
 Theorem C14_json_table_roundtrip_header_only_refuted :
   let t := mkT [[97]] [] in
   NoDup (hdr t) /\ rect t /\ from_dicts (to_dicts t) = Ok empty_table /\ from_dicts (to_dicts t) <> Ok t.
@@ -168,25 +180,34 @@ Theorem C14_xlsx_sheet : forall (t : table str str) k,
 Proof. exact (fun t k H1 H2 H3 H4 => conj (xlsx_sheet t H1 H2 H3 H4) (xlsx_sheet_stray t k H1 H2 H3 H4)). Qed.
 Print Assumptions C14_xlsx_sheet.
 
+(* without the "no row of empty cells" premise: `_sanitize` omits exactly those rows *)
+Theorem C14_xlsx_sheet_any_rows : forall (t : table str str) k,
+  hdr t <> [] -> Forall (fun s => s <> []) (hdr t) -> rect t ->
+  read_xlsx_sheet (xl_grid t) = Ok (lift_table (drop_empty_rows (tr_table t))) /\
+  read_xlsx_sheet (widen k (xl_grid t)) = Ok (lift_table (drop_empty_rows (tr_table t))).
+Proof. exact (fun t k H1 H2 H3 => conj (xlsx_sheet_gen t H1 H2 H3) (xlsx_sheet_stray_gen t k H1 H2 H3)). Qed.
+Print Assumptions C14_xlsx_sheet_any_rows.
+
 (* Premises (the two libraries that are not modelled): openpyxl hands back, for a workbook saved
    as string cells, the grid [xl_grid] (None for '', CR LF / CR -> LF); json.loads undoes
    json.dumps.  Domain: the property's (rectangular sheets, non-empty pairwise distinct headers,
-   cells within the csv field limit) minus the two classes refuted below, cells without CR.
+   cells within the csv field limit) minus the two classes of part 5 (rows of empty cells, sheets
+   without rows), cells without CR.
    Then the CSV folder, the XLSX file and the JSON produced by `convert` read into the workbook
-   itself — names, headers and every cell string intact. *)
+   itself — names, headers and every cell string intact — on EVERY tree (any reader flags). *)
 Theorem C14_formats_agree :
   forall (X J : Type) (xl_write : workbook (table str str) -> X) (xl_load : X -> workbook (list (list xcell)))
          (json_dumps : workbook jsheet -> J) (json_loads : J -> workbook jsheet),
   (forall wb, xl_load (xl_write wb) = wb_map xl_grid wb) ->
   (forall b, json_loads (json_dumps b) = b) ->
-  forall (translated : bool) (wb : workbook (table str str)),
+  forall (fl : reader_flags) (translated : bool) (wb : workbook (table str str)),
   Forall (fun p => let t := snd p in
             hdr t <> [] /\ Forall (fun s => s <> []) (hdr t) /\ NoDup (hdr t) /\ rect t /\ cells_fit t /\
             no_empty_row t /\ rws t <> []) wb ->
   Forall (fun p => cr_free (snd p)) wb ->
-  via_csv translated wb = Ok wb /\
+  via_csv fl translated wb = Ok wb /\
   via_xlsx X xl_write xl_load wb = Ok (wb_map lift_table wb) /\
-  via_json J json_dumps json_loads translated wb = Ok wb.
+  via_json J json_dumps json_loads fl translated wb = Ok wb.
 Proof. exact formats_agree. Qed.
 Print Assumptions C14_formats_agree.
 
@@ -197,9 +218,9 @@ Example C14_formats_agree_nonvacuous :
   let loads := fun b : workbook jsheet => b in
   (forall wb, xl_load (xl_write wb) = wb_map xl_grid wb) /\ (forall b, loads (dumps b) = b) /\
   wb_ok ex_wb /\ wb_cr_free ex_wb /\
-  via_csv load_csv_translated ex_wb = Ok ex_wb /\
+  via_csv tree_flags load_csv_translated ex_wb = Ok ex_wb /\
   via_xlsx _ xl_write xl_load ex_wb = Ok (wb_map lift_table ex_wb) /\
-  via_json _ dumps loads load_csv_translated ex_wb = Ok ex_wb.
+  via_json _ dumps loads tree_flags load_csv_translated ex_wb = Ok ex_wb.
 Proof. exact formats_agree_nonvacuous. Qed.
 Print Assumptions C14_formats_agree_nonvacuous.
 
@@ -210,60 +231,134 @@ Theorem C14_formats_agree_normalised :
          (json_dumps : workbook jsheet -> J) (json_loads : J -> workbook jsheet),
   (forall wb, xl_load (xl_write wb) = wb_map xl_grid wb) ->
   (forall b, json_loads (json_dumps b) = b) ->
-  forall wb : workbook (table str str),
+  forall (fl : reader_flags) (wb : workbook (table str str)),
   Forall (fun p => let t := snd p in
             hdr t <> [] /\ Forall (fun s => s <> []) (hdr t) /\ NoDup (map translate (hdr t)) /\ rect t /\
             cells_fit t /\ no_empty_row t /\ rws t <> []) wb ->
-  via_csv load_csv_translated wb = Ok (wb_map tr_table wb) /\
+  via_csv fl load_csv_translated wb = Ok (wb_map tr_table wb) /\
   via_xlsx X xl_write xl_load wb = Ok (wb_map lift_table (wb_map tr_table wb)) /\
-  via_json J json_dumps json_loads load_csv_translated wb = Ok (wb_map tr_table wb).
+  via_json J json_dumps json_loads fl load_csv_translated wb = Ok (wb_map tr_table wb).
 Proof. exact formats_agree_normalised_tables. Qed.
 Print Assumptions C14_formats_agree_normalised.
 
 Example C14_formats_agree_normalised_nonvacuous :
   load_csv_translated = true /\
   Forall (fun p => sheet_ok_tr (snd p)) ex_wb_cr /\ wb_map tr_table ex_wb_cr <> ex_wb_cr /\
-  via_csv load_csv_translated ex_wb_cr = Ok (wb_map tr_table ex_wb_cr).
+  via_csv tree_flags load_csv_translated ex_wb_cr = Ok (wb_map tr_table ex_wb_cr).
 Proof. exact formats_agree_normalised_nonvacuous. Qed.
 Print Assumptions C14_formats_agree_normalised_nonvacuous.
 
-(* The statement over the property's whole domain (any number of rows, empty cells allowed) is
-   FALSE of the code as coded — two different defects, both reproduced on the implementation
-   (known findings "all-empty row" and "sheet without rows"). *)
-Theorem C14_formats_agree_full_refuted :
+(* ------------------------------------------------------------------ 5. the property's whole domain *)
+
+(* The statement over the property's whole domain — rectangular text sheets with unique non-empty
+   headers, ANY number of rows, empty cells allowed (hence rows of empty cells, sheets without rows);
+   the JSON produced by `convert` from the CSV folder, or held in `convert`'s format — is DECIDED by
+   the probed flags of the tree: it holds on a tree with both repairs (every reader omits rows without
+   content; `convert` writes and JSONSheetReader reads the object form for a sheet without rows) and is
+   refuted on every other tree (findings "all-empty row", "sheet without rows"). *)
+Theorem C14_formats_agree_full_decided :
   forall (X J : Type) (xl_write : workbook (table str str) -> X) (xl_load : X -> workbook (list (list xcell)))
          (json_dumps : workbook jsheet -> J) (json_loads : J -> workbook jsheet),
   (forall wb, xl_load (xl_write wb) = wb_map xl_grid wb) ->
+  (forall b, json_loads (json_dumps b) = b) ->
   forall translated : bool,
-  ~ (forall wb : workbook (table str str),
+  let full := forall wb : workbook (table str str),
        Forall (fun p => let t := snd p in
                  hdr t <> [] /\ Forall (fun s => s <> []) (hdr t) /\ NoDup (hdr t) /\ rect t /\ cells_fit t /\
                  cr_free t) wb ->
-       rmap (wb_map lift_table) (via_csv translated wb) = via_xlsx X xl_write xl_load wb /\
-       via_json J json_dumps json_loads translated wb = via_csv translated wb).
-Proof. exact formats_agree_full_refuted. Qed.
-Print Assumptions C14_formats_agree_full_refuted.
+       rmap (wb_map lift_table) (via_csv tree_flags translated wb) = via_xlsx X xl_write xl_load wb /\
+       via_json J json_dumps json_loads tree_flags translated wb = via_csv tree_flags translated wb /\
+       via_json_direct J json_dumps json_loads tree_flags wb = via_csv tree_flags translated wb in
+  if flags_repaired tree_flags then full else ~ full.
+Proof. exact formats_agree_full_tree. Qed.
+Print Assumptions C14_formats_agree_full_decided.
 
-(* sheet "s", header "a", one row with one empty cell: CSV keeps the row, XLSX drops it *)
-Theorem C14_formats_agree_empty_row_refuted :
-  forall (X : Type) (xl_write : workbook (table str str) -> X) (xl_load : X -> workbook (list (list xcell))),
+(* the same for ANY flags (the proof never looks at the probed values), with what the reads are when
+   both repairs are in: the workbook without its rows of empty cells, everything else intact *)
+Theorem C14_formats_agree_full_repaired :
+  forall (X J : Type) (xl_write : workbook (table str str) -> X) (xl_load : X -> workbook (list (list xcell)))
+         (json_dumps : workbook jsheet -> J) (json_loads : J -> workbook jsheet),
   (forall wb, xl_load (xl_write wb) = wb_map xl_grid wb) ->
-  forall translated : bool,
-  let wb := [([115], mkT [[97]] [[[]]])] in
-  via_csv translated wb = Ok wb /\
-  via_xlsx X xl_write xl_load wb = Ok [([115], mkT [Some [97]] [])] /\
-  rmap (wb_map lift_table) (via_csv translated wb) <> via_xlsx X xl_write xl_load wb.
-Proof. exact formats_agree_empty_row_refuted. Qed.
-Print Assumptions C14_formats_agree_empty_row_refuted.
+  (forall b, json_loads (json_dumps b) = b) ->
+  forall (fl : reader_flags) (translated : bool) (wb : workbook (table str str)),
+  flags_repaired fl = true ->
+  Forall (fun p => let t := snd p in
+            hdr t <> [] /\ Forall (fun s => s <> []) (hdr t) /\ NoDup (hdr t) /\ rect t /\ cells_fit t /\
+            cr_free t) wb ->
+  via_csv fl translated wb = Ok (wb_map drop_empty_rows wb) /\
+  via_xlsx X xl_write xl_load wb = Ok (wb_map lift_table (wb_map drop_empty_rows wb)) /\
+  via_json J json_dumps json_loads fl translated wb = Ok (wb_map drop_empty_rows wb) /\
+  via_json_direct J json_dumps json_loads fl wb = Ok (wb_map drop_empty_rows wb).
+Proof. exact formats_agree_full_repaired. Qed.
+Print Assumptions C14_formats_agree_full_repaired.
 
-(* sheet "s", header "a", no rows: `convert` + JSONSheetReader return a table without headers *)
-Theorem C14_convert_full_refuted :
-  forall (J : Type) (json_dumps : workbook jsheet -> J) (json_loads : J -> workbook jsheet),
+Example C14_formats_agree_full_nonvacuous :
+  let xl_write := wb_map xl_grid in
+  let xl_load := fun x : workbook (list (list xcell)) => x in
+  let dumps := fun b : workbook jsheet => b in
+  let loads := fun b : workbook jsheet => b in
+  flags_repaired (flags_all true) = true /\ flags_repaired (flags_all false) = false /\
+  Forall (fun p => in_property_domain (snd p)) ex_wb_full /\
+  wb_map drop_empty_rows ex_wb_full =
+    [ ([115; 49], mkT [[97]; [98; 32; 99]] [[[120; 44; 121]; []]; [[]; [34; 10; 19990]]]);
+      ([101], mkT [[105; 100]] []); ([104], mkT [[105; 100]; [118]] []) ] /\
+  via_csv (flags_all true) load_csv_translated ex_wb_full = Ok (wb_map drop_empty_rows ex_wb_full) /\
+  via_xlsx _ xl_write xl_load ex_wb_full = Ok (wb_map lift_table (wb_map drop_empty_rows ex_wb_full)) /\
+  via_json _ dumps loads (flags_all true) load_csv_translated ex_wb_full = Ok (wb_map drop_empty_rows ex_wb_full) /\
+  via_json_direct _ dumps loads (flags_all true) ex_wb_full = Ok (wb_map drop_empty_rows ex_wb_full).
+Proof. exact formats_agree_full_nonvacuous. Qed.
+Print Assumptions C14_formats_agree_full_nonvacuous.
+
+(* finding "all-empty row" alone: sheets that keep at least one row with content.  The readers agree (on
+   the workbook without the rows of empty cells) exactly when the CSV and the JSON reader omit those
+   rows as `_sanitize` always did *)
+Theorem C14_empty_rows_agree_decided :
+  forall (X J : Type) (xl_write : workbook (table str str) -> X) (xl_load : X -> workbook (list (list xcell)))
+         (json_dumps : workbook jsheet -> J) (json_loads : J -> workbook jsheet),
+  (forall wb, xl_load (xl_write wb) = wb_map xl_grid wb) ->
   (forall b, json_loads (json_dumps b) = b) ->
   forall translated : bool,
+  let agree := forall wb : workbook (table str str),
+       Forall (fun p => in_property_domain (snd p) /\ has_content_row (snd p)) wb ->
+       via_csv tree_flags translated wb = Ok (wb_map drop_empty_rows wb) /\
+       via_xlsx X xl_write xl_load wb = Ok (wb_map lift_table (wb_map drop_empty_rows wb)) /\
+       via_json J json_dumps json_loads tree_flags translated wb = Ok (wb_map drop_empty_rows wb) /\
+       via_json_direct J json_dumps json_loads tree_flags wb = Ok (wb_map drop_empty_rows wb) in
+  if csv_reader_drops_empty_rows && json_reader_drops_empty_rows then agree else ~ agree.
+Proof. exact (fun X J xw xl jd jl Hx Hj tr => empty_rows_agree_decided X J xw xl jd jl Hx Hj tree_flags tr). Qed.
+Print Assumptions C14_empty_rows_agree_decided.
+
+(* the witness: sheet "s", header "a", rows "x" and "" — what each format reads, on every tree *)
+Theorem C14_empty_row_witness :
+  forall (X J : Type) (xl_write : workbook (table str str) -> X) (xl_load : X -> workbook (list (list xcell)))
+         (json_dumps : workbook jsheet -> J) (json_loads : J -> workbook jsheet),
+  (forall wb, xl_load (xl_write wb) = wb_map xl_grid wb) ->
+  (forall b, json_loads (json_dumps b) = b) ->
+  forall (fl : reader_flags) (translated : bool),
+  let wb := [([115], mkT [[97]] [[[120]]; [[]]])] in
+  via_csv fl translated wb = Ok (wb_map (drop_if (rf_csv_drop fl)) wb) /\
+  via_xlsx X xl_write xl_load wb = Ok [([115], mkT [Some [97]] [[[120]]])] /\
+  via_json_direct J json_dumps json_loads fl wb = Ok (wb_map (drop_if (rf_json_drop fl)) wb).
+Proof. exact empty_row_witness. Qed.
+Print Assumptions C14_empty_row_witness.
+
+(* finding "sheet without rows" alone: EVERY table with pairwise distinct headers, with or without rows,
+   comes back from `convert` + JSONSheetReader exactly when the object form is written and read *)
+Theorem C14_convert_roundtrip_decided :
+  let all := forall t : table str str, NoDup (hdr t) -> rect t ->
+       read_json_sheet tree_flags (to_json_sheet tree_flags t) = Ok (drop_if json_reader_drops_empty_rows t) in
+  if to_json_table_form && json_reader_table_form then all else ~ all.
+Proof. exact (json_roundtrip_all_decided tree_flags). Qed.
+Print Assumptions C14_convert_roundtrip_decided.
+
+(* the witness: sheet "s", header "a", no rows — through the CSV reader and through `convert` + JSONSheetReader *)
+Theorem C14_convert_header_only_witness :
+  forall (J : Type) (json_dumps : workbook jsheet -> J) (json_loads : J -> workbook jsheet),
+  (forall b, json_loads (json_dumps b) = b) ->
+  forall (fl : reader_flags) (translated : bool),
   let wb := [([115], mkT [[97]] [])] in
-  via_csv translated wb = Ok wb /\
-  via_json J json_dumps json_loads translated wb = Ok [([115], empty_table)] /\
-  via_json J json_dumps json_loads translated wb <> via_csv translated wb.
-Proof. exact formats_agree_header_only_refuted. Qed.
-Print Assumptions C14_convert_full_refuted.
+  via_csv fl translated wb = Ok wb /\
+  via_json J json_dumps json_loads fl translated wb =
+    (if rf_tojson_table fl then (if rf_json_table fl then Ok wb else Err EFormat) else Ok [([115], empty_table)]).
+Proof. exact header_only_witness. Qed.
+Print Assumptions C14_convert_header_only_witness.
